@@ -362,10 +362,11 @@ class JsonSchemaGenerator:
             data.update(dependentRequired=dependent_required)
         addition = options.addition
         if addition is not None:
-            if isinstance(addition, type):
-                data.update(additionalProperties=self.generate_for_type(addition))
-            else:
+            if isinstance(addition, bool):
                 data.update(additionalProperties=addition)
+            else:
+                # the parsed addition type (typing generics, Optional[...] are not classes)
+                data.update(additionalProperties=self.generate_for_type(parser.addition_type))
 
         annotations = parser.schema_annotations
         if annotations:
